@@ -219,7 +219,8 @@ pub fn run(run: &mut Run, args: &Args) {
             let proj: Vec<(Expr, Ty)> = (0..n)
                 .map(|_| {
                     let ty = g.any_ty_pub(&mut rng);
-                    (g.gen(&mut rng, ty, 1 + rng.below(3) as u32), ty)
+                    let d = 1 + rng.below(3) as u32;
+                    (g.gen(&mut rng, ty, d), ty)
                 })
                 .collect();
             let q = Query::select(Select { from, where_: None, group: None, proj, distinct: false });
